@@ -50,6 +50,43 @@ def configs(draw, exhaustive=False):
   }
 
 
+_collisions = {}
+
+
+def colliding_pairs(hash_type):
+  """(server, instance) pairs whose str() hash to the same 16-bit position (FastHashRing orders nodes by
+  that hash): found by brute force over a pool of plausible names, through the reference hash."""
+  if hash_type in _collisions:
+    return _collisions[hash_type]
+  seen = {}
+  pairs = []
+  for i in range(700):
+    for inst in ('a', 'b', None):
+      node = ('cache%d' % i, inst)
+      p = refring.position(refring.node_repr(node), hash_type)
+      if p in seen and seen[p][0] != node[0]:
+        pairs.append((seen[p], node))
+      seen.setdefault(p, node)
+  _collisions[hash_type] = pairs[:40]
+  return _collisions[hash_type]
+
+
+@st.composite
+def collision_configs(draw):
+  hash_type = draw(st.sampled_from(['carbon_ch', 'fnv1a_ch']))
+  a, b = draw(st.sampled_from(colliding_pairs(hash_type)))
+  nodes = [a, b]
+  for _ in range(draw(st.integers(0, 3))):
+    n = (draw(st.sampled_from(SERVERS)), draw(st.sampled_from(INSTANCES)))
+    if n not in nodes:
+      nodes.append(n)
+  nodes = draw(st.permutations(nodes))
+  return {'dests': [[n[0], 2004, n[1]] for n in nodes], 'rf': draw(st.integers(1, 4)), 'diverse': draw(st.booleans()),
+          'router': draw(st.sampled_from(['fast-hashing', 'fast-hashing', 'fast-aggregated-hashing', 'consistent-hashing'])),
+          'hash': hash_type, 'keys': 'boundary', 'names': draw(st.lists(gen.metric_names(max_tokens=5), max_size=40)),
+          'collision': True}
+
+
 class FakeSettings(dict):
   __getattr__ = dict.__getitem__
 
@@ -155,6 +192,8 @@ def execute(ctx, case):
     classes.append('several instances on one server')
   if case['rf'] > nservers:
     classes.append('rf > servers')
+  if case.get('collision'):
+    classes.append('two nodes with colliding node hashes')
   ctx.note(dict(case, names=case['names'][:3]), nontrivial=nt, classes=classes,
            key=[case['dests'], case['rf'], case['diverse'], case['router'], case['hash'], case['keys']])
 
@@ -163,7 +202,9 @@ def run(ctx):
   refring.selfcheck()
   if ctx.quick:
     run_given(ctx, configs(exhaustive=True), execute, 6, salt=1)
-    run_given(ctx, configs(), execute, 330, salt=2)
+    run_given(ctx, configs(), execute, 300, salt=2)
+    run_given(ctx, collision_configs(), execute, 80, salt=3)
   else:
     run_given(ctx, configs(exhaustive=True), execute, 40, salt=1)
     run_given(ctx, configs(), execute, 1200, salt=2)
+    run_given(ctx, collision_configs(), execute, 300, salt=3)
